@@ -239,6 +239,38 @@ func genC15(r *hx.Rng, tier string, w io.Writer) {
 		g.emit("reopen")
 		g.emit("get key=%s", hx.Hex([]byte(fmt.Sprintf("k%04d", n-1))))
 	}
+	// roots of the past must stay what they were (the caller keeps the slice it was given as AppHash): a later root
+	// that fits the room of an earlier one and differs inside its first len(earlier) bytes - an early key gets a new
+	// value, a new key sorts before the existing ones, same length / shorter / longer, from InitChain and from
+	// ExecuteTxs, with a reopen (a fresh executor) in between.  Appending keys that sort last never shows anything.
+	g.emit("reset")
+	g.emit("exec txs=%s", hx.HexList([][]byte{[]byte("a=1"), []byte("m=5")}))
+	g.emit("exec txs=%s", hx.HexList([][]byte{[]byte("a=2")}))
+	g.emit("init")
+	g.emit("exec txs=%s", hx.HexList([][]byte{[]byte("0=9")}))
+	g.emit("init")
+	g.emit("final h=3")
+	g.emit("exec txs=%s", hx.HexList([][]byte{[]byte("m=")}))
+	g.emit("reopen")
+	g.emit("exec txs=%s", hx.HexList([][]byte{[]byte("a=3"), []byte("z=1")}))
+	g.emit("exec txs=%s", hx.HexList([][]byte{[]byte("a=4")}))
+	g.emit("reexec")
+	g.emit("inject tx=%s n=3", hx.Hex([]byte("a=7")))
+	g.emit("gettxs")
+	g.emit("exec txs=%s", hx.HexList([][]byte{[]byte("!=1")}))
+	g.emit("gettxs")
+	// a long root first (so that there is room), then shorter ones that differ at the very beginning
+	g.emit("reset")
+	g.emit("init")
+	long := make([][]byte, 0, 40)
+	for i := 0; i < 40; i++ {
+		long = append(long, []byte(fmt.Sprintf("k%02d=%d", i, i)))
+	}
+	g.emit("exec txs=%s", hx.HexList(long))
+	g.emit("exec txs=%s", hx.HexList([][]byte{[]byte("k00=changed")}))
+	g.emit("exec txs=%s", hx.HexList([][]byte{[]byte("a=first")}))
+	g.emit("reexec")
+	g.emit("init")
 	// mempool: full channel, drain, never part of the state
 	g.emit("reset")
 	g.emit("exec txs=%s", hx.HexList([][]byte{[]byte("m=1")}))
